@@ -21,6 +21,11 @@ CH = 'adsg_core/graph/choices.py:'
 CC = 'adsg_core/graph/choice_constraints.py:'
 
 CASES = [
+    (GP + 'GraphProcessor._get_des_vars@connection-choices', 'break', "                existence_infeasibility_mask[exist_map == -1] = False", "                existence_infeasibility_mask = exist_map != -1"),
+    (GP + 'GraphProcessor._get_des_vars@connection-choices', 'break', "            i_dv_start = len(des_vars)\n\n            for conn_des_var in conn_des_vars:", "            i_dv_start = len(des_vars) + 1\n\n            for conn_des_var in conn_des_vars:"),
+    (GP + 'GraphProcessor._get_des_vars@connection-choices', 'break', "            des_vars += conn_des_vars\n            i_dv_end = len(des_vars)", "            i_dv_end = len(des_vars)\n            des_vars += conn_des_vars"),
+    (GP + 'GraphProcessor._get_des_vars@connection-choices', 'break', "                (assignment_manager, node_map, exist_map, i_dv_start, i_dv_end, all_conn_nodes)", "                (assignment_manager, node_map, exist_map, i_dv_end, i_dv_start, all_conn_nodes)"),
+    (GP + 'GraphProcessor._get_des_vars@connection-choices', 'keep', "            if not isinstance(exist_map, dict) and not cutoff_mode:", "            if not cutoff_mode and not isinstance(exist_map, dict):"),
     (INC + 'get_mod_nodes_remove_incompatibilities@confirmed-pairs', 'break', "        if edge[0] in confirmed_nodes and edge[1] in confirmed_nodes:\n            infeasible_incompatibility_edges.add(edge)", "        if edge[0] in confirmed_nodes or edge[1] in confirmed_nodes:\n            infeasible_incompatibility_edges.add(edge)"),
     (INC + 'get_mod_nodes_remove_incompatibilities@confirmed-pairs', 'break', "        if edge[0] in confirmed_nodes:\n            confirmed_incompatibility_edges.add(edge)", "        if edge[1] in confirmed_nodes:\n            confirmed_incompatibility_edges.add(edge)"),
     (INC + 'get_mod_nodes_remove_incompatibilities@confirmed-pairs', 'break', "            removed_nodes.add(edge[1])", "            removed_nodes.add(edge[0])"),
